@@ -38,7 +38,7 @@ class C17(Check):
                 scn["event"] = {"k": "error", "name": "union-offset", "def": rng.choice(keys), "seed": rng.randrange(1 << 30)}
             elif r0 < 0.6:
                 names = [n for n, v in MU.RAW.items() if v[2] == "reject"] + sorted(MU.LAZY) + sorted(MU.FINAL)
-                scn["event"] = {"k": "error", "name": rng.choice(names), "def": rng.choice(keys), "seed": rng.randrange(1 << 30)}
+                scn["event"] = {"k": "error", "name": rng.choice(names), "def": rng.choice(keys), "seed": rng.randrange(1 << 30), "clone": rng.random() < 0.3}
             else:
                 scn["event"] = {"k": "print", "at": [[rng.choice(keys), rng.randrange(1 << 30)] for _ in range(rng.randint(1, 3))]}
             if self.apply_event(scn)[1]:
@@ -79,6 +79,16 @@ class C17(Check):
                 return ws, []
             klass = "immediate" if ev["name"] in MU.RAW and MU.RAW[ev["name"]][3] else "either" if ev["name"] in MU.RAW else "lazy" if ev["name"] in MU.LAZY else "final"
             sites.append((ev["def"], "%d:%d" % pos, None, klass))
+            if ev.get("clone"):
+                # history: a second file with byte-identical (faulty) text under another name, read later in the same process;
+                # its error must carry its own path
+                c = copy.deepcopy(d)
+                c["name"] = d["name"] + "Clone"
+                c["port"] = None
+                ri = uni.root_of[ev["def"]]
+                if not any(x["name"].lower() == c["name"].lower() for x in uni.defs.values()) and not any(r0 == ev["def"] or T.def_key(d) in T.def_refs(d) for r0 in [None]):
+                    ws["roots"][ri]["defs"].append(c)
+                    sites.append((T.def_key(c), "%d:%d" % pos, None, klass))
         else:
             for n, (k, seed) in enumerate(ev["at"]):
                 if k not in uni.defs:
@@ -116,6 +126,9 @@ class C17(Check):
             op = W.rf_op(rng, uni, targets, [x for x in range(nroots) if x not in troots])
             reads.append(op)
         rng.shuffle(reads)
+        if len(sites) > 1 and sites[0][3] != "print":
+            for key, _t, _p, _k in sites:
+                reads.append(W.rf_op(rng, uni, [key], [x for x in range(nroots) if x != uni.root_of[key]]))
         w = World({"ws": ws, "fmt": scn.get("fmt", {}), "symlinks": W.symlinks_for(ws)})
         # probe: count evaluations per text
         evals: list[str] = []
@@ -143,7 +156,12 @@ class C17(Check):
                 status = "ok" if res["ok"] else classify_exc(res["exc"])
                 out.obs.append([i, status])
                 if is_err:
-                    key, tag, _p, klass = sites[0]
+                    in_closure = [st for st in sites if st[0] in closure]
+                    if len(in_closure) > 1:
+                        # both the original and its clone are reachable: either error is legitimate; checked on the reads
+                        # that reach exactly one of them
+                        continue
+                    key, tag, _p, klass = in_closure[0] if in_closure else sites[0]
                     if key not in closure:
                         if not res["ok"]:
                             out.fail("C17.err-path", "read %d: the faulty definition %s is outside the closure but the call raised %s" % (i, key, type(res["exc"]).__name__), "outside-closure")
@@ -222,9 +240,18 @@ class C17(Check):
                         out.fail("C17.print-count", "read %d: directive in %s (%s) never delivered" % (i, want_file, how), "count:lost")
                     for (pp, ln, tx) in got:
                         if w.rel(pp) != want_file:
-                            referrer = w.rel(pp) in {uni.file_of(k3) for k3 in closure}
-                            out.fail("C17.print-path", "read %d: @print on line %s of %s (%s) delivered with path %s" % (i, want_line, want_file, how, w.rel(pp)),
-                                     "print-path:%s:%s" % (how, "referrer" if referrer else "foreign"))
+                            by_file = {uni.file_of(k3): k3 for k3 in closure}
+                            other = by_file.get(w.rel(pp))
+                            if other is None:
+                                rel = "foreign"
+                            elif key in uni.closure([other]):
+                                rel = "referrer"  # the reported file (transitively) references the directive's file
+                            elif other in uni.closure([key]):
+                                rel = "dependency"  # the reported file is something the directive's file references
+                            else:
+                                rel = "unrelated"
+                            out.fail("C17.print-path", "read %d: @print on line %s of %s (%s) delivered with path %s (%s of it)" % (i, want_line, want_file, how, w.rel(pp), rel),
+                                     "print-path:%s:%s" % (how, rel))
                         if ln != want_line:
                             out.fail("C17.print-line", "read %d: @print on line %s of %s delivered with line %s" % (i, want_line, want_file, ln), "print-line:" + how)
             if probe_ok:
